@@ -304,30 +304,51 @@ def truthy (h : RHeap) : PVal → Bool
     | some o => if o.rep = .nprec then o.items.any (truthyObj h) else !o.items.isEmpty
     | none => true
 
-/-- `list(iter(self))` without record ranges: the records that pass `filter(bool, …)` (when there is a nested
-    clause), each through all the maps, in order; the first exception ends the iteration -/
-def iterAll (maps : List RMap) (dropEmpty : Bool) : RHeap → List PVal → Out (List PVal)
+/-- entries of `ifilter` -/
+inductive RFilt where
+  | cmp (p : Pred)      -- `f(row) = op(a(row), b(row))` of a clause on an outer column (`m` is the identity)
+  | truthy              -- `f = bool` of a clause on a column of a nested sequence
+deriving DecidableEq, Repr
+
+def evalFilt (h : RHeap) : RFilt → PVal → Except Err Bool
+  | .cmp p, v => evalPred h p v
+  | .truthy, v => .ok (truthy h v)
+
+/-- `for f in self.ifilter: data = filter(f, data)`: a record reaches the next filter only when it passed this one -/
+def evalFilts (h : RHeap) : List RFilt → PVal → Except Err Bool
+  | [], _ => .ok true
+  | f :: fs, v => match evalFilt h f v with
+    | .error e => .error e
+    | .ok false => .ok false
+    | .ok true => evalFilts h fs v
+
+/-- `list(iter(self))` without record ranges: the records that pass every filter, each through all the maps, in
+    order; the first exception (in a filter or in a map) ends the iteration.  Filters only read. -/
+def iterAll (filts : List RFilt) (maps : List RMap) : RHeap → List PVal → Out (List PVal)
   | h, [] => ⟨h, [], .ok []⟩
   | h, r :: rs =>
-    if dropEmpty && !truthy h r then iterAll maps dropEmpty h rs
-    else
+    match evalFilts h filts r with
+    | .error e => ⟨h, [], .error e⟩
+    | .ok false => iterAll filts maps h rs
+    | .ok true =>
       let a := applyMaps maps h r
       match a.val with
       | .error e => ⟨a.heap, a.log, .error e⟩
       | .ok v =>
-        let b := iterAll maps dropEmpty a.heap rs
+        let b := iterAll filts maps a.heap rs
         ⟨b.heap, a.log ++ b.log, b.val.map (v :: ·)⟩
 
 /-- one request on a served nested lazy sequence, as far as the source records are concerned: the type lookup
-    (`peeks` times: once per inner column a response declares) followed by the iteration that streams the data -/
-def serveRows (maps : List RMap) (dropEmpty : Bool) (h : RHeap) (stream : List PVal) : Nat → Out (List PVal)
-  | 0 => iterAll maps dropEmpty h stream
+    (`peeks` times: once per inner column a response declares; the filters are NOT applied there) followed by the
+    iteration that streams the data -/
+def serveRows (filts : List RFilt) (maps : List RMap) (h : RHeap) (stream : List PVal) : Nat → Out (List PVal)
+  | 0 => iterAll filts maps h stream
   | k + 1 =>
     let a := dtypePeek maps h stream
     match a.val with
     | .error e => ⟨a.heap, a.log, .error e⟩
     | .ok _ =>
-      let b := serveRows maps dropEmpty a.heap stream k
+      let b := serveRows filts maps a.heap stream k
       ⟨b.heap, a.log ++ b.log, b.val⟩
 
 end Pydap.RowHeap
